@@ -3,7 +3,7 @@ import numpy as np
 import scipy.linalg as sl
 
 from .. import casecheck
-from ..pool import contract, metadata_problem, core_arrays, same_state
+from ..pool import contract, metadata_problem, core_arrays, same_state, value_snapshot, value_changed
 
 ASSUME = [
     'initial states are right-orthonormal and normalised (the algorithms of the cited reference start from a right-canonical state; the library\'s own caller orthonormalises first); Krylov needs a normalised state',
@@ -42,7 +42,7 @@ def replay(case):
     full = list(cfg['r0']) == list(case['maxranks'])
     kind = 'cplx' if cfg['cplx'] else 'real'
     out = []
-    Hsnap, xsnap = Hd.copy(), x0d.copy()
+    snaps = value_snapshot([H, x0])
 
     def traj_ok(sol, name):
         if not isinstance(sol, list) or len(sol) != n + 1:
@@ -131,9 +131,9 @@ def replay(case):
             pass
         except Exception as e:
             out.append(('krylov:exception:%s' % type(e).__name__, repr(e)))
-    if np.max(np.abs(contract(H.cores).reshape(N, N) - Hsnap)) > 1e-9 * max(1.0, float(np.max(np.abs(Hsnap)))) or \
-            np.max(np.abs(vec(x0) - xsnap)) > 1e-9:
-        out.append(('operand_changed', 'the operator or the initial state was modified'))
+    why = value_changed(snaps)
+    if why:
+        out.append(('operand_changed', 'the operator or the initial state was modified (%s)' % why))
     return out
 
 
